@@ -59,6 +59,8 @@ def trees():
         "LICENSES/MIT.txt": "mit\n", "LICENSES/0BSD.txt": "0bsd\n"}
     t["licenses-dir"] = {"a.py": H.replace("MIT", "MIT AND LicenseRef-own"), "LICENSES/MIT.txt": "mit\n", "LICENSES/LicenseRef-own.txt": "own text\n",
                          "LICENSES/sub/Zlib.txt": "zlib\n", "LICENSES/GPL-2.0.txt": "deprecated\n", "LICENSES/MIT.txt.license": "SPDX-License-Identifier: CC0-1.0\n"}
+    t["case-variants"] = {"a.py": H, "b/c.py": H.replace("MIT", "mit"), "b/d.py": H.replace("MIT", "MIT OR 0bsd"), "e.py": H.replace("MIT", "0BSD OR MIT"),
+                          "LICENSES/MIT.txt": "mit\n", "LICENSES/0BSD.txt": "0bsd\n"}
     t["git"] = {"a.py": H, "ignored.log": "x\n", "d/b.py": H, "d/c.log": "x\n", ".gitignore": "*.log\n", "LICENSES/MIT.txt": "mit\n"}
     return t
 
